@@ -9,11 +9,28 @@ KEYS = ["61", "62", "6162", "63", "6200"]
 
 def gen_workload(rng, root, tier, opts=None, big=False):
     """returns (script_lines, commits, opts) — commits[i] = writes of the i-th COMMITTED-attempt txn"""
-    opts = opts or rng.choice(OPTS)
+    opts = opts or rng.choice(OPTS + [o for o in OPTS if "mem=" in o] * 2)
     lines = ["e2 newat %s/db" % root, "e2 open %s" % opts]
     commits = []
     tx = 0
     vcount = 0
+    if "mem=" in opts and rng.random() < 0.5:
+        # structured: single-key transactions with values of about a fifth of the memtable, so that
+        # every few commits one commit itself fills the memtable (rotation inside apply), with flushes
+        # of the rotated memtables in between; ends in a process crash
+        mem = int([kv for kv in opts.split(",") if kv.startswith("mem=")][0][4:])
+        size = max(200, mem // rng.choice([4, 5, 6]))
+        for _ in range(rng.randint(8, 16)):
+            tx += 1
+            vcount += 1
+            k = rng.choice(KEYS + ["64", "65", "66"])
+            v = "rep:%d:%d" % (size + rng.randint(0, 50), vcount & 255)
+            lines += ["e2 begin %d rw" % tx, "e2 set %d %s %s" % (tx, k, v), "e2 %s %d" % ("commitsync" if rng.random() < 0.3 else "commit", tx)]
+            commits.append([("set", k, v)])
+            if rng.random() < 0.3:
+                lines.append("e2 flush1")
+        lines.append(rng.choice(["e2 abort", "e2 abort", "e2 close"]))
+        return lines, commits, opts
     n = rng.randint(4, 10) if tier == "quick" else rng.randint(6, 18)
     for _ in range(n):
         r = rng.random()
@@ -108,6 +125,15 @@ def judge(answer, commits, n_required):
         return "open-failed", got
     match = [n for n in range(len(commits) + 1) if K.state_after(commits, n) == got]
     if not match:
+        # not a prefix; is acknowledged data missing as well?  (a key of the required prefix whose
+        # recovered value is none of the values it has in any state from the required one on)
+        def as_map(line):
+            return dict(x.split("=") for x in line[5:].split(",") if x)
+        rec = as_map(got)
+        states = [as_map(K.state_after(commits, n)) for n in range(n_required, len(commits) + 1)]
+        lost = [k for k in states[0] if rec.get(k) not in {st.get(k) for st in states}] if states and n_required > 0 else []
+        if lost:
+            return "not-a-prefix+acked-lost", "%s (acknowledged data missing for keys %s)" % (got, lost)
         return "not-a-prefix", got
     if max(match) < n_required:
         return "acked-lost", "recovered = state after %s commits, %d were acknowledged%s" % (match, n_required, "")
@@ -171,7 +197,7 @@ def explore(ctx, pid, want, n_quick=8, n_thorough=60, cuts_quick=40, big=False):
             stats["policies"][pol] = stats["policies"].get(pol, 0) + 1
             if need > 0:
                 nontrivial.add((t, ci, pol))
-            if verdict != "ok" and verdict in want:
+            if verdict != "ok" and any(v in want for v in verdict.split("+")):
                 desc = "%s: crash after operation %d (%s) of the trace, model=%s: %s" % (verdict, ci, log[ci][:80], "process-crash" if pol == "proc" else "power-loss/" + pol, detail[:200])
                 keep = os.path.join(C.VERIF, "replays", pid, "image_t%d_%d_%s" % (t, ci, pol))
                 os.makedirs(os.path.dirname(keep), exist_ok=True)
